@@ -5,7 +5,7 @@
 //! `F <json>` for a case that does not conform, `DONE <cases> <failed>` at the end.
 use serde_json::Value;
 use std::io::{BufRead, Write};
-use tdverif::cells::{Elem, Tok, Zst, A128, B1, B3, K32, W1K, W4K, W80, Z0};
+use tdverif::cells::{Elem, Elem40, Tok, Zst, A128, B1, B3, K32, W1K, W24, W4K, W64K, W8, W80, Z0};
 use tdverif::util::silence_panics;
 
 fn main() {
@@ -25,7 +25,7 @@ fn main() {
             x => panic!("unknown argument {x}"),
         }
     }
-    silence_panics();
+    if std::env::var("VERIF_LOUD").is_err() { silence_panics(); }
     let f = std::fs::File::open(path).expect("cases file");
     let out = std::io::stdout();
     let mut out = std::io::BufWriter::new(out.lock());
@@ -57,6 +57,10 @@ fn main() {
                     "tok" => tdverif::hist::run_case::<Tok>(steps, cap, &mut events),
                     "w1k" => tdverif::hist::run_case::<W1K>(steps, cap, &mut events),
                     "w4k" => tdverif::hist::run_case::<W4K>(steps, cap, &mut events),
+                    "w64k" => tdverif::hist::run_case::<W64K>(steps, cap, &mut events),
+                    "w8" => tdverif::hist::run_case::<W8>(steps, cap, &mut events),
+                    "w24" => tdverif::hist::run_case::<W24>(steps, cap, &mut events),
+                    "elem40" => tdverif::hist::run_case::<Elem40>(steps, cap, &mut events),
                     e => panic!("unknown elem {e}"),
                 };
                 if let Some(lf) = logfile.as_mut() {
@@ -78,6 +82,9 @@ fn main() {
                     "w80" => tdverif::acc::run_case::<W80>(&case, &mut events),
                     "w1k" => tdverif::acc::run_case::<W1K>(&case, &mut events),
                     "w4k" => tdverif::acc::run_case::<W4K>(&case, &mut events),
+                    "w8" => tdverif::acc::run_case::<W8>(&case, &mut events),
+                    "w24" => tdverif::acc::run_case::<W24>(&case, &mut events),
+                    "elem40" => tdverif::acc::run_case::<Elem40>(&case, &mut events),
                     "z0" => tdverif::acc::run_case::<Z0>(&case, &mut events),
                     "a128" => tdverif::acc::run_case::<A128>(&case, &mut events),
                     "zst" => tdverif::acc::run_case::<Zst>(&case, &mut events),
@@ -122,6 +129,8 @@ fn main() {
                 "elem" => tdverif::ctor::run_case::<Elem>(&case),
                 "u32" => tdverif::ctor::run_case::<K32>(&case),
                 "zst" => tdverif::ctor::run_case::<Zst>(&case),
+                "w4k" => tdverif::ctor::run_case::<W4K>(&case),
+                "w24" => tdverif::ctor::run_case::<W24>(&case),
                 e => panic!("unknown elem {e}"),
             },
             f => panic!("unknown family {f}"),
